@@ -26,6 +26,8 @@ class Outcome:
         self.branching = []      # n at each decision point (n >= 2)
         self.choices = []        # index chosen at each decision point
         self.eager = []          # choices taken at submit time (see Chooser)
+        self.deadlock = False    # all modelled workers blocked on pool tasks (see ManualFuture)
+        self.worker_waits = 0    # times a running task waited for another pool task
         self.max_pending = 0
         self.tasks = 0
 
@@ -37,9 +39,11 @@ class Chooser:
     completes first (a worker thread that is faster than the submitter)."""
 
     def __init__(self, schedule, outcome):
+        self.workers = None
         if isinstance(schedule, dict):
             self.schedule = list(schedule.get("order", []))
             self.eager = list(schedule.get("eager", []))
+            self.workers = schedule.get("workers")
         else:
             self.schedule = list(schedule)
             self.eager = []
@@ -68,6 +72,36 @@ class Chooser:
         return c
 
 
+class PoolDeadlock(Exception):
+    """every modelled worker waits for a pool task that no free worker is left to run"""
+
+
+class ManualFuture(Future):
+    """Future of a harness-owned pool.  result() on a pending future from inside a running task means that the task
+    blocks its worker: other (modelled) workers go on completing pending tasks; when all `workers` are blocked the
+    pool can never finish -> PoolDeadlock (recorded in the outcome).  py_gql itself only reads futures that are done."""
+
+    def __init__(self, pool):
+        Future.__init__(self)
+        self._pool = pool
+
+    def result(self, timeout=None):
+        pool = self._pool
+        if self.done() or not pool.running:
+            return Future.result(self, timeout)
+        pool.blocked += 1
+        pool.o.worker_waits += 1
+        try:
+            while not self.done():
+                if pool.blocked >= pool.workers or not pool.pending:
+                    pool.o.deadlock = True
+                    raise PoolDeadlock("%d of %d workers wait for pool tasks" % (pool.blocked, pool.workers))
+                pool.run(pool.chooser.pick(len(pool.pending)) if pool.chooser is not None else 0)
+        finally:
+            pool.blocked -= 1
+        return Future.result(self, 0)
+
+
 class ManualPool(ThreadPoolExecutor):
     """A ThreadPoolExecutor whose submit() only records the task; the harness runs tasks itself."""
 
@@ -76,9 +110,12 @@ class ManualPool(ThreadPoolExecutor):
         self.pending = []
         self.o = outcome
         self.chooser = chooser
+        self.workers = getattr(chooser, "workers", None) or 10 ** 6   # modelled number of worker threads
+        self.blocked = 0
+        self.running = 0
 
     def submit(self, fn, *a, **kw):
-        f = Future()
+        f = ManualFuture(self)
         path = None
         try:
             path = tuple(a[2].path)
@@ -95,12 +132,15 @@ class ManualPool(ThreadPoolExecutor):
 
     def run(self, i):
         f, fn, a, kw, path = self.pending.pop(i)
+        self.running += 1
         try:
             r = fn(*a, **kw)
         except BaseException as e:  # noqa
+            self.running -= 1
             self.o.log.append(("done", path))
             f.set_exception(e)
         else:
+            self.running -= 1
             self.o.log.append(("done", path))
             f.set_result(r)
 
